@@ -795,6 +795,11 @@ static void conf_parse_entry(struct conf_parse *parse, struct conf_node_object *
         }
     }
     ch = conf_parse_whitespace(parse, 1);
+    if ((ch == '}') && (parent != &parse->root)) {
+        /* The enclosing object's closing brace also ends its last entry. */
+        parse->curr--;
+        return;
+    }
     if ((ch != ';') && (ch != '\n'))
         longjmp(parse->env, PARSE_EXPECTED_SEMICOLON);
 }
